@@ -447,12 +447,64 @@ def expected_caches(prev, R):
             rem = get(elem_body(e), "remaining")
             if len(rem) >= 2 and rem[0] == 0 and rem[1] == 9:
                 v9_error = True
+                failed_v9_templates(bytes(rem), exp)
     return exp, v9_error
+
+
+def failed_v9_templates(p, exp):
+    """A V9 packet that failed part-way: the complete template records of the flowsets BEFORE the
+    failing one were received, so the parser must hold them (C06: latest definition received).
+    Walks only as far as is certain: leading template / options-template flowsets and data
+    flowsets of ids known as plain templates; stops at anything else.  Adds {id: marker} entries
+    with the (number, length) lists to compare against the cache."""
+    if len(p) < 20:
+        return
+    count = int.from_bytes(p[2:4], "big")
+    pos = 20
+    for _ in range(count):
+        if pos + 4 > len(p):
+            return
+        fid = int.from_bytes(p[pos : pos + 2], "big")
+        ln = int.from_bytes(p[pos + 2 : pos + 4], "big")
+        blen = max(ln - 4, 0)
+        if pos + 4 + blen > len(p):
+            return
+        body = p[pos + 4 : pos + 4 + blen]
+        if fid == 0:
+            q = 0
+            while len(body) - q >= 4:
+                tid = int.from_bytes(body[q : q + 2], "big")
+                cnt = int.from_bytes(body[q + 2 : q + 4], "big")
+                if len(body) - q - 4 < 4 * cnt:
+                    break
+                fs = [(int.from_bytes(body[q + 4 + 4 * i : q + 6 + 4 * i], "big"), int.from_bytes(body[q + 6 + 4 * i : q + 8 + 4 * i], "big")) for i in range(cnt)]
+                if tid >= 256:
+                    exp["v9_t"][tid] = [("fields", cnt, fs)]
+                q += 4 + 4 * cnt
+        elif fid == 1:
+            q = 0
+            while len(body) - q >= 6:
+                tid = int.from_bytes(body[q : q + 2], "big")
+                sl = int.from_bytes(body[q + 2 : q + 4], "big")
+                ol = int.from_bytes(body[q + 4 : q + 6], "big")
+                need = 4 * (sl // 4) + 4 * (ol // 4)
+                if len(body) - q - 6 < need:
+                    break
+                if tid >= 256:
+                    exp["v9_o"][tid] = [("present",)]
+                q += 6 + need
+        elif fid in exp["v9_t"] and fid not in exp["v9_o"]:
+            pass
+        else:
+            return
+        pos += 4 + blen
 
 
 def caches_match(exp, S, maps):
     for m in maps:
         now = cache_map(S, m)
+        if any(isinstance(v[0], tuple) for v in exp[m].values()):
+            continue
         if set(now) != set(exp[m]):
             return "%s holds ids %s, expected %s" % (m, sorted(now), sorted(exp[m]))
         for tid in now:
@@ -485,8 +537,22 @@ def c06(case, obs, crash):
             for m in ("v9_t", "v9_o", "ix_t", "ix_o"):
                 now = cache_map(S, m)
                 if v9_error and m.startswith("v9"):
-                    # a V9 packet that failed part-way may have cached the templates of its earlier
-                    # flowsets (complete records of an allowed version): only monotonicity is demanded
+                    # a V9 packet that failed part-way: the complete template records of its flowsets
+                    # before the failing one were received and must be cached; further entries are
+                    # allowed (records the walk above did not vouch for)
+                    for tid, want in exp[m].items():
+                        if tid not in now:
+                            f.append((None, "parser %d: %s lacks id %d although a complete template record for it was received (in a packet that later failed, or earlier)" % (k, m, tid)))
+                        elif isinstance(want[0], tuple):
+                            if want[0][0] == "fields":
+                                got = plain(now[tid][0])
+                                have = [(q["field_type_number"], q["field_length"]) for q in got.get("fields", [])]
+                                if got.get("field_count") != want[0][1] or have != want[0][2]:
+                                    f.append((None, "parser %d: %s[%d] is not the latest definition received (the one in the packet that later failed)" % (k, m, tid)))
+                        else:
+                            d = canon.diff(want[0], now[tid][0], "%s[%d]" % (m, tid))
+                            if d:
+                                f.append((None, "parser %d: cache entry is not the latest definition received: %s" % (k, d)))
                     continue
                 if set(now) != set(exp[m]):
                     f.append((None, "parser %d: %s holds ids %s, expected %s (previous + templates reported in this call)"
@@ -550,4 +616,601 @@ def c07(case, obs, crash):
             if not bodies_with_id(R, proto, tid):
                 f.append((None, "op %d: data for %s id %d not decoded after its template was received" % (k, proto, tid)))
         last_S[op[1]] = S
+    return f
+
+
+# ---------------------------------------------------------------- C04 / C05 (reference decode)
+import refdec  # noqa: E402
+
+
+def val_diff(exp, got, path):
+    """exp: plain expected value from refdec.value; got: canon tree from the crate"""
+    (k, v), = exp.items()
+    if not isinstance(got, canon.Pairs) or len(got) != 1 or got[0][0] != k:
+        return "%s: expected %s, crate reports %s" % (path, k, got[0][0] if isinstance(got, canon.Pairs) and got else got)
+    g = got[0][1]
+    if isinstance(v, tuple) and v[0] == "ip6":
+        return canon.diff(canon.Pairs([("$ip6", v[1])]), g, path)
+    if isinstance(v, tuple) and v[0] == "f64":
+        return canon.diff(canon.Pairs([("$f64", v[1])]), g, path)
+    if isinstance(v, dict):
+        if plain(g) != v:
+            return "%s: expected %r, crate %r" % (path, v, plain(g))
+        return None
+    if plain(g) != v:
+        return "%s: expected %r, crate %r" % (path, v, plain(g))
+    return None
+
+
+def check_header(exp, got, path):
+    g = plain(got)
+    for k, v in exp.items():
+        if g.get(k) != v:
+            return "%s.%s: sent %r, reported %r" % (path, k, v, g.get(k))
+    return None
+
+
+def c04_packet(dec, p, e, pads, tables):
+    """compare one V9 packet p (bytes) with the crate's element e; returns list of failures"""
+    f = []
+    hdr, sets = dec.v9(p)
+    if elem_kind(e) != "V9":
+        return [(None, "conformant V9 packet reported as %s" % elem_kind(e))]
+    b = elem_body(e)
+    d = check_header(hdr, get(b, "header"), "V9.header")
+    if d:
+        f.append((None, d))
+    got = get(b, "flowsets")
+    if len(got) != len(sets):
+        return f + [(None, "V9 packet with %d flowsets reported with %d" % (len(sets), len(got)))]
+    for i, (x, g) in enumerate(zip(sets, got)):
+        gh = plain(get(g, "header"))
+        if gh.get("flowset_id") != x[1] or gh.get("length") != x[2]:
+            f.append((None, "flowset %d header: sent id %d length %d, reported %r" % (i, x[1], x[2], gh)))
+        body = get(g, "body")
+        kind = body[0][0]
+        want = {"T": "Template", "O": "OptionsTemplate", "D": "Data", "OD": "OptionsData"}[x[0]]
+        if kind != want:
+            f.append((None, "flowset %d (id %d): sent %s, reported %s" % (i, x[1], want, kind)))
+            continue
+        inner = body[0][1]
+        if x[0] == "T":
+            ts = get(inner, "templates")
+            if len(ts) != len(x[3]):
+                f.append((None, "flowset %d: %d template records sent, %d reported" % (i, len(x[3]), len(ts))))
+                continue
+            for (tid, fs), t in zip(x[3], ts):
+                t = plain(t)
+                exp = {"template_id": tid, "field_count": len(fs),
+                       "fields": [{"field_type_number": n, "field_type": tables.v9[n][0], "field_length": l} for n, l in fs]}
+                if t != exp:
+                    f.append((None, "flowset %d: template %d sent as %r, reported %r" % (i, tid, fs, t)))
+        elif x[0] == "O":
+            ts = get(inner, "templates")
+            if len(ts) != len(x[3]):
+                f.append((None, "flowset %d: %d options template records sent, %d reported" % (i, len(x[3]), len(ts))))
+                continue
+            for (tid, sl, ol, sc, op), t in zip(x[3], ts):
+                t = plain(t)
+                if t.get("template_id") != tid or t.get("options_scope_length") != sl or t.get("options_length") != ol \
+                        or [(q["field_type_number"], q["field_length"]) for q in t.get("scope_fields", [])] != sc \
+                        or [(q["field_type_number"], q["field_length"]) for q in t.get("option_fields", [])] != op:
+                    f.append((None, "flowset %d: options template %d reported differently: %r" % (i, tid, t)))
+        elif x[0] == "D":
+            recs = get(inner, "fields")
+            if len(recs) != len(x[3]):
+                f.append((None, "data flowset %d (template %d): %d records sent, %d reported" % (i, x[1], len(x[3]), len(recs))))
+                continue
+            for ri, (er, gr) in enumerate(zip(x[3], recs)):
+                if len(gr) != len(er):
+                    f.append((None, "data flowset %d record %d: %d fields sent, %d reported" % (i, ri, len(er), len(gr))))
+                    continue
+                for fi, ((num, ev), (key, gv)) in enumerate(zip(er, gr)):
+                    if key != str(fi) or gv[0] != tables.v9[num][0]:
+                        f.append((None, "data flowset %d record %d field %d: key %r name %r, expected %d %s" % (i, ri, fi, key, gv[0], fi, tables.v9[num][0])))
+                        continue
+                    d = val_diff(ev, gv[1], "flowset %d record %d field %d (%s)" % (i, ri, fi, tables.v9[num][0]))
+                    if d:
+                        f.append((None, d))
+            if pads is not None and pads[i] != x[4].hex():
+                f.append((None, "data flowset %d: padding sent %s, reported %s" % (i, x[4].hex(), pads[i])))
+        else:
+            sc = get(inner, "scope_fields")
+            op = get(inner, "options_fields")
+            names = {1: "System", 2: "Interface", 3: "LineCard", 4: "NetFlowCache", 5: "Template"}
+            exp_sc = [{names[n]: list(v)} for n, v in x[3]]
+            exp_op = [{"field_type": tables.v9[n][0], "field_value": list(v)} for n, v in x[4]]
+            if plain(sc) != exp_sc or plain(op) != exp_op:
+                f.append((None, "options data flowset %d: sent scope %r options %r, reported %r %r" % (i, exp_sc, exp_op, plain(sc), plain(op))))
+    return f
+
+
+def c05_packet(dec, p, e, pads, tables):
+    f = []
+    hdr, sets = dec.ipfix(p)
+    if elem_kind(e) != "IPFix":
+        return [(None, "conformant IPFIX message reported as %s" % elem_kind(e))]
+    b = elem_body(e)
+    d = check_header(hdr, get(b, "header"), "IPFix.header")
+    if d:
+        f.append((None, d))
+    got = get(b, "flowsets")
+    multi = any(x[0] in ("T", "O") and len(x[3]) > 1 for x in sets)
+    if multi:
+        return f + [("K_C05_multi_template", "a template set with more than one template record is decoded as one merged template")]
+    if len(got) != len(sets):
+        return f + [(None, "IPFIX message with %d sets reported with %d" % (len(sets), len(got)))]
+    for i, (x, g) in enumerate(zip(sets, got)):
+        gh = plain(get(g, "header"))
+        if gh.get("header_id") != x[1] or gh.get("length") != x[2]:
+            f.append((None, "set %d header: sent id %d length %d, reported %r" % (i, x[1], x[2], gh)))
+        body = get(g, "body")
+        kind = body[0][0]
+        want = {"T": "Template", "O": "OptionsTemplate", "D": "Data", "OD": "OptionsData"}[x[0]]
+        if kind != want:
+            f.append((None, "set %d (id %d): sent %s, reported %s" % (i, x[1], want, kind)))
+            continue
+        inner = body[0][1]
+        if x[0] in ("T", "O"):
+            rec = x[3][0]
+            t = plain(inner)
+            fs = rec[-1]
+            exp_fields = []
+            for n, l, ent in fs:
+                q = {"field_type_number": n, "field_type": "Enterprise" if ent is not None else tables.ipfix[n][0], "field_length": l}
+                if ent is not None:
+                    q["enterprise_number"] = ent
+                exp_fields.append(q)
+            exp = {"template_id": rec[0], "field_count": rec[1], "fields": exp_fields}
+            if x[0] == "O":
+                exp["scope_field_count"] = rec[2]
+            if t != exp:
+                f.append((None, "set %d: template record %d sent as %r, reported %r" % (i, rec[0], exp, t)))
+        else:
+            flat = []
+            for er in x[3]:
+                for fi, (num, ent, ev) in enumerate(er):
+                    flat.append((fi, "Enterprise" if ent is not None else tables.ipfix[num][0], ev))
+            gf = get(inner, "fields")
+            if len(gf) != len(flat):
+                f.append((None, "data set %d (template %d): %d values sent in %d records, %d reported" % (i, x[1], len(flat), len(x[3]), len(gf))))
+                continue
+            for vi, ((fi, name, ev), m) in enumerate(zip(flat, gf)):
+                key, gv = m[0]
+                if key != str(fi) or gv[0] != name:
+                    f.append((None, "data set %d value %d: key %r name %r, expected %d %s" % (i, vi, key, gv[0], fi, name)))
+                    continue
+                d = val_diff(ev, gv[1], "set %d value %d (%s)" % (i, vi, name))
+                if d:
+                    cls = None
+                    (ek, evv), = ev.items()
+                    if ek == "DataNumber" and isinstance(evv, int) and not (-(1 << 31) <= evv < (1 << 31)) and evv < 0 or \
+                            (ek == "DataNumber" and name and tables_signed(tables, name) and not (-(1 << 31) <= evv < (1 << 31))):
+                        cls = "K_C05_signed_wide"
+                    f.append((cls, d))
+            if pads is not None and pads[i] != x[4].hex():
+                f.append((None, "data set %d: padding sent %s, reported %s" % (i, x[4].hex(), pads[i])))
+    return f
+
+
+def tables_signed(tables, name):
+    for n, v in tables.ipfix.items():
+        if v[0] == name:
+            return v[2] == "SignedDataNumber"
+    return False
+
+
+def c0405(case, obs, crash, tables, which):
+    """meta['packets']: [(parser, hex, desc)] in send order; every op is one B per packet group.
+    Replays the packets through the reference decoder (one per parser) and compares with R."""
+    f = []
+    pk = case.meta.get("packets")
+    if not pk:
+        return f
+    proto_names = {n: v[2] for n, v in tables.proto.items() if v[2] != "-"}
+    decs = {}
+    # element stream per parser, in order
+    bp = by_parser(case, obs)
+    elems = {}
+    pads = {}
+    for k, pairs in bp.items():
+        R, _ = results_of(pairs)
+        elems[k] = list(R)
+        pads[k] = [x for _op, o in pairs for x in (get(o, "D") or [])]
+    idx = {k: 0 for k in elems}
+    for k, hx, desc in pk:
+        p = bytes.fromhex(hx)
+        ver = u16(p)
+        dec = decs.setdefault(k, refdec.RefDecoder(tables, proto_names))
+        if k not in elems or idx[k] >= len(elems[k]):
+            if ver in (9, 10):
+                f.append((None, "packet %d of parser %d has no element in the results" % (idx.get(k, 0), k)))
+            break
+        e = elems[k][idx[k]]
+        pad = pads[k][idx[k]] if idx[k] < len(pads[k]) else None
+        idx[k] += 1
+        try:
+            if ver == 9:
+                ff = c04_packet(dec, p, e, pad, tables)
+                if which == "C04":
+                    f.extend(ff)
+            elif ver == 10:
+                ff = c05_packet(dec, p, e, pad, tables)
+                if which == "C05":
+                    f.extend(ff)
+                if any(c == "K_C05_multi_template" for c, _ in ff):
+                    break
+        except refdec.NotConformant:
+            break
+        if elem_kind(e) == "Error":
+            break
+    return f
+
+
+def u16(p):
+    return int.from_bytes(p[:2], "big")
+
+
+def c04(case, obs, crash, tables):
+    return c0405(case, obs, crash, tables, "C04")
+
+
+def c05(case, obs, crash, tables):
+    return c0405(case, obs, crash, tables, "C05")
+
+
+# ---------------------------------------------------------------- C09 / C10 (re-export)
+
+LOSSY_KINDS = [("Duration", "duration"), ("MacAddr", "mac")]
+
+
+def value_classes(prefix, v):
+    """classes a decoded value (canon tree {Kind: payload}) may fall in on re-export"""
+    k = v[0][0]
+    p = v[0][1]
+    out = set()
+    if k == "Duration":
+        out.add(prefix + "_duration")
+    elif k == "MacAddr":
+        out.add(prefix + "_mac")
+    elif k == "String":
+        if "�" in p:
+            out.add(prefix + "_string_lossy")
+    elif k == "ProtocolType":
+        if p == "Unknown":
+            out.add(prefix + "_proto_unknown")
+    return out
+
+
+def c09(case, obs, crash):
+    f = []
+    ops = [o for o in parse_ops(case) if o[0] == "B"]
+    for k, (o, op) in enumerate(zip(obs, ops)):
+        R = get(o, "R")
+        X = get(o, "X")
+        if not isinstance(R, list) or isinstance(R, canon.Pairs) or X is None:
+            continue
+        x = op[2]
+        pos = 0
+        for j, e in enumerate(R):
+            if elem_kind(e) == "Error":
+                break
+            n = wire_len(e)
+            if elem_kind(e) == "V9":
+                want = x[pos : pos + n].hex()
+                if X[j] != want:
+                    classes = set()
+                    for fs in get(elem_body(e), "flowsets"):
+                        b = get(fs, "body")
+                        if b[0][0] == "Data":
+                            for rec in get(b[0][1], "fields"):
+                                for _key, tv in rec:
+                                    classes |= value_classes("K_C09", tv[1])
+                    what = "to_be_bytes failed" if X[j] == "ERR" else ("to_be_bytes PANICKED" if X[j] == "PANIC" else "to_be_bytes differs from the %d bytes the packet occupied" % n)
+                    if X[j] == "PANIC" or not classes:
+                        f.append((None, "op %d: V9 element %d: %s (no lossy value kind in the packet)" % (k, j, what)))
+                    else:
+                        for c in sorted(classes):
+                            f.append((c, "V9 element with a %s value: %s" % (c.split("_", 2)[2], what)))
+            pos += n
+    return f
+
+
+def c10(case, obs, crash, tables):
+    f = []
+    ops = [o for o in parse_ops(case) if o[0] == "B"]
+    dtype_of = {v[0]: v[2] for v in tables.ipfix.values()} if tables else {}
+    for k, (o, op) in enumerate(zip(obs, ops)):
+        R = get(o, "R")
+        X = get(o, "X")
+        S = get(o, "S")
+        if not isinstance(R, list) or isinstance(R, canon.Pairs) or X is None:
+            continue
+        x = op[2]
+        pos = 0
+        for j, e in enumerate(R):
+            if elem_kind(e) == "Error":
+                break
+            n = wire_len(e)
+            if elem_kind(e) == "IPFix":
+                want = x[pos : pos + n].hex()
+                if X[j] != want:
+                    classes = set()
+                    sets = get(elem_body(e), "flowsets")
+                    stored = 16 + sum(max(get(get(fs, "header"), "length"), 4) for fs in sets)
+                    if stored < n:
+                        classes.add("K_C10_sets_dropped")
+                    tmpl = {}
+                    if S is not None:
+                        for m in ("ix_t", "ix_o"):
+                            for ent in get(S, m):
+                                tmpl[ent[0]] = ent[1]
+                    for fs in sets:
+                        b = get(fs, "body")
+                        if b[0][0] in ("Data", "OptionsData"):
+                            for m in get(b[0][1], "fields"):
+                                _key, tv = m[0]
+                                classes |= value_classes("K_C10", tv[1])
+                                if tv[1][0][0] == "DataNumber" and dtype_of.get(tv[0]) == "SignedDataNumber":
+                                    classes.add("K_C10_signed_widened")
+                            t = tmpl.get(get(get(fs, "header"), "header_id"))
+                            if t is not None and any(get(q, "field_length") == 65535 for q in get(t, "fields")):
+                                classes.add("K_C10_varlen_prefix")
+                    what = "to_be_bytes failed" if X[j] == "ERR" else ("to_be_bytes PANICKED" if X[j] == "PANIC" else "to_be_bytes differs from the %d bytes the message occupied" % n)
+                    if X[j] == "PANIC" or not classes:
+                        f.append((None, "op %d: IPFIX element %d: %s (no lossy value kind, variable-length field or dropped set in the message)" % (k, j, what)))
+                    else:
+                        for c in sorted(classes):
+                            f.append((c, "IPFIX message with %s: %s" % (c.split("_", 2)[2], what)))
+            pos += n
+    return f
+
+
+# ---------------------------------------------------------------- C13 (common view)
+
+V9_NAMES = {"src4": "Ipv4SrcAddr", "src6": "Ipv6SrcAddr", "dst4": "Ipv4DstAddr", "dst6": "Ipv6DstAddr", "sport": "L4SrcPort",
+            "dport": "L4DstPort", "proto": "Protocol", "first": "FirstSwitched", "last": "LastSwitched", "smac": "InSrcMac", "dmac": "InDstMac"}
+IX_NAMES = {"src4": "SourceIpv4address", "src6": "SourceIpv6address", "dst4": "DestinationIpv4address", "dst6": "DestinationIpv6address",
+            "sport": "SourceTransportPort", "dport": "DestinationTransportPort", "proto": "ProtocolIdentifier",
+            "first": "FlowStartSysUpTime", "last": "FlowEndSysUpTime", "smac": "SourceMacaddress", "dmac": "DestinationMacaddress"}
+
+
+def project(rec, names, proto_from, cls_prefix):
+    """rec: list of (name, value tree).  -> (expected flow dict, classes of accepted deviations)"""
+    vm = {}
+    for name, v in rec:
+        vm[name] = v
+    classes = set()
+
+    def ip(a, b):
+        v = vm.get(names[a]) or vm.get(names[b])
+        if v is None:
+            return None
+        if v[0][0] in ("Ip4Addr", "Ip6Addr"):
+            return v[0][1]
+        return "ABSENT?"
+
+    def num(key, bits):
+        v = vm.get(names[key])
+        if v is None:
+            return None
+        if v[0][0] == "DataNumber":
+            return ("num", v[0][1])
+        if v[0][0] == "ProtocolType":
+            classes.add(cls_prefix + "_protocol")
+            return "ANY"
+        if v[0][0] == "Duration":
+            classes.add(cls_prefix + "_switched")
+            return "ANY"
+        return "ABSENT?"
+
+    def mac(key):
+        v = vm.get(names[key])
+        if v is None:
+            return None
+        if v[0][0] in ("MacAddr", "String"):
+            return v[0][1]
+        return "ABSENT?"
+
+    exp = {"src_addr": ip("src4", "src6"), "dst_addr": ip("dst4", "dst6"), "src_port": num("sport", 16), "dst_port": num("dport", 16),
+           "protocol_number": num("proto", 8), "first_seen": num("first", 32), "last_seen": num("last", 32),
+           "src_mac": mac("smac"), "dst_mac": mac("dmac")}
+    return exp, classes
+
+
+def flow_diff(exp, got, widths, cls_prefix, proto_from):
+    """compare one expected projection with one common flow; returns (class|None, msg) list"""
+    out = []
+    g = plain(got)
+    for key, want in exp.items():
+        have = g.get(key)
+        if want == "ANY":
+            continue
+        if want == "ABSENT?":
+            if have is not None:
+                out.append((None, "%s = %r from a value of an unexpected kind" % (key, have)))
+            continue
+        if isinstance(want, tuple):
+            n = want[1]
+            bits = widths[key]
+            if have is None and isinstance(n, int):
+                # the decoded number exists but has another width than the common field:
+                # accepted deviation (value kinds the conversion does not accept)
+                out.append((cls_prefix + "_width", "%s absent although the record has the field (decoded with another width)" % key))
+                continue
+            if have != n:
+                out.append((None, "%s = %r, the record's field is %r" % (key, have, n)))
+            continue
+        if have != want:
+            out.append((None, "%s = %r, the record's field is %r" % (key, have, want)))
+    # protocol name must be the table's name of the number, when a number is there
+    if g.get("protocol_number") is not None:
+        if g.get("protocol_type") != proto_from.get(g["protocol_number"]):
+            out.append((None, "protocol_type %r for number %r" % (g.get("protocol_type"), g["protocol_number"])))
+    elif g.get("protocol_type") is not None:
+        out.append((None, "protocol_type without protocol_number"))
+    return out
+
+
+def c13(case, obs, crash, tables):
+    f = []
+    proto_from = {n: v[0] for n, v in tables.proto.items()} if tables else {}
+    widths = {"src_port": 16, "dst_port": 16, "protocol_number": 8, "first_seen": 32, "last_seen": 32}
+    ops = parse_ops(case)
+    for k, (o, op) in enumerate(zip(obs, ops)):
+        if op[0] == "F":
+            continue
+        R = get(o, "R")
+        C = get(o, "C")
+        if not isinstance(R, list) or isinstance(R, canon.Pairs) or C is None:
+            continue
+        for j, (e, c) in enumerate(zip(R, C)):
+            kind = elem_kind(e)
+            if kind == "Error":
+                if c != "ERR":
+                    f.append((None, "op %d: error element converts to %r" % (k, c)))
+                continue
+            if c == "ERR" or c == "PANIC":
+                f.append((None, "op %d: %s element converts to %s" % (k, kind, c)))
+                continue
+            b = elem_body(e)
+            h = plain(get(b, "header"))
+            cc = plain(c)
+            ver = {"V5": 5, "V7": 7, "V9": 9, "IPFix": 10}[kind]
+            ts = h.get("export_time") if kind == "IPFix" else h.get("sys_up_time")
+            if cc["version"] != ver or cc["timestamp"] != ts:
+                f.append((None, "op %d: %s common version/timestamp %r/%r, packet says %r/%r" % (k, kind, cc["version"], cc["timestamp"], ver, ts)))
+            flows = get(c, "flows")
+            if kind in ("V5", "V7"):
+                recs = get(b, "flowsets")
+                if len(flows) != len(recs):
+                    f.append((None, "op %d: %s %d records, %d common flows" % (k, kind, len(recs), len(flows))))
+                    continue
+                for r, fl in zip(recs, flows):
+                    r = plain(r)
+                    fl = plain(fl)
+                    exp = {"src_addr": r["src_addr"], "dst_addr": r["dst_addr"], "src_port": r["src_port"], "dst_port": r["dst_port"],
+                           "protocol_number": r["protocol_number"], "protocol_type": r["protocol_type"], "first_seen": r["first"],
+                           "last_seen": r["last"], "src_mac": None, "dst_mac": None}
+                    if fl != exp:
+                        f.append((None, "op %d: %s flow %r differs from record projection %r" % (k, kind, fl, exp)))
+                continue
+            names = V9_NAMES if kind == "V9" else IX_NAMES
+            pre = "K_C13_v9" if kind == "V9" else "K_C13_ipfix"
+            records = []
+            for fs in get(b, "flowsets"):
+                body = get(fs, "body")
+                if body[0][0] != "Data":
+                    continue
+                if kind == "V9":
+                    for rec in get(body[0][1], "fields"):
+                        records.append([(tv[0], tv[1]) for _key, tv in rec])
+                else:
+                    cur = None
+                    for m in get(body[0][1], "fields"):
+                        key, tv = m[0]
+                        if key == "0" or cur is None:
+                            cur = []
+                            records.append(cur)
+                        cur.append((tv[0], tv[1]))
+            if len(flows) != len(records):
+                if kind == "IPFix" and len(flows) == sum(len(r) for r in records) and any(len(r) > 1 for r in records):
+                    f.append(("K_C13_ipfix_per_field", "IPFIX data with %d records of several fields yields %d common flows (one per field)" % (len(records), len(flows))))
+                else:
+                    f.append((None, "op %d: %s %d data records, %d common flows" % (k, kind, len(records), len(flows))))
+                continue
+            for rec, fl in zip(records, flows):
+                exp, classes = project(rec, names, proto_from, pre)
+                for cls, msg in flow_diff(exp, fl, widths, pre, proto_from):
+                    f.append((cls, "op %d: %s: %s" % (k, kind, msg)))
+                gl = plain(fl)
+                for c_ in classes:
+                    key = "protocol_number" if c_.endswith("_protocol") else None
+                    if c_.endswith("_protocol") and gl.get("protocol_number") is None:
+                        f.append((c_, "%s record has a protocol field (decoded as a protocol name) but the common flow has no protocol number/name" % kind))
+                    if c_.endswith("_switched") and (gl.get("first_seen") is None or gl.get("last_seen") is None):
+                        f.append((c_, "%s record has first/last switched (decoded as durations) but the common flow lacks them" % kind))
+    # F ops: flat view = concatenation of the flows of the non-error packets of the twin B op
+    bp = {}
+    for (op, o) in zip(ops, obs):
+        bp.setdefault((op[1], op[2]), {})[op[0]] = o
+    for key, d in bp.items():
+        if "B" in d and "F" in d:
+            C = get(d["B"], "C")
+            F = get(d["F"], "F")
+            if C is None or F is None:
+                continue
+            want = []
+            for c in C:
+                if c not in ("ERR", "PANIC"):
+                    want.extend(get(c, "flows"))
+            dd = canon.diff(want, F, "F")
+            if dd:
+                f.append((None, "parse_bytes_as_netflow_common_flowsets is not the concatenation of the packets' flows: %s" % dd))
+    return f
+
+
+# ---------------------------------------------------------------- C15 (cost)
+
+def c15(case, obs, crash):
+    """allocated bytes during parse_bytes against input length + serialized result size"""
+    f = []
+    ops = [o for o in parse_ops(case) if o[0] == "B"]
+    for k, (o, op) in enumerate(zip(obs, ops)):
+        M = get(o, "M")
+        L = get(o, "L")
+        R = get(o, "R")
+        if M is None or L is None or not isinstance(R, list) or isinstance(R, canon.Pairs):
+            continue
+        n = len(op[2])
+        bound = 4096 + 600 * n + 40 * L
+        if M > bound:
+            npk = len(R)
+            cls = None
+            # the remaining buffer is copied once per chained packet
+            if npk >= 8 and M <= bound + npk * n:
+                cls = "K_C15_chained_copy"
+            # V9: a failing record is retried for every remaining iteration, cloning the template each time
+            for e in R:
+                if elem_kind(e) == "V9":
+                    cls = cls or "K_C15_v9_retry_or_zero_len"
+                if elem_kind(e) == "IPFix" and L > 50 * n:
+                    cls = cls or "K_C15_zero_len_inflation"
+            f.append((cls, "op %d: %d bytes allocated for a %d-byte buffer and a %d-byte serialized result (bound %d)" % (k, M, n, L, bound)))
+    return f
+
+
+# ---------------------------------------------------------------- C17 (feature off)
+
+def c17(case, obs, crash, tables):
+    """obs: the feature-off build; case.meta['default_obs']: the default build on the same ops"""
+    f = []
+    dobs = case.meta.get("default_obs")
+    if dobs is None:
+        return f
+    unknown_names = {"Unknown"}
+    for k, (o, d) in enumerate(zip(obs, dobs)):
+        R = get(o, "R")
+        RD = get(d, "R")
+        if not isinstance(R, list) or not isinstance(RD, list):
+            continue
+        # does the default-build result decode any value of an unknown field type?
+        def has_unknown(Rx):
+            for e in Rx:
+                if elem_kind(e) in ("V9", "IPFix"):
+                    for fs in get(elem_body(e), "flowsets"):
+                        b = get(fs, "body")
+                        if b[0][0] in ("Data", "OptionsData") and get(b[0][1], "fields") is not None:
+                            for rec in get(b[0][1], "fields"):
+                                for _key, tv in rec:
+                                    if tv[0] in unknown_names:
+                                        return True
+            return False
+        if has_unknown(R):
+            f.append((None, "op %d: a value of an unknown field type is reported as decoded data with parse_unknown_fields off" % k))
+        if not has_unknown(RD) and not case.meta.get("has_unknown_template"):
+            for key in ("R", "X", "C"):
+                dd = canon.diff(get(d, key), get(o, key), key)
+                if dd:
+                    f.append((None, "op %d: known-only input differs between the default and the feature-off build: %s" % (k, dd)))
     return f
